@@ -29,9 +29,6 @@ ACCEPTED = {
     'Inverse': {'dense', 'dense_F'},
 }
 NPDT = {'bool': np.bool_, 'int': np.int64, 'real': np.float64, 'complex': np.complex128}
-# pending finding (reported, demo findings/NEW_C07_dense_lu_integer_fortran_order.py): scipy.linalg.lu mis-factorises integer-typed
-# Fortran-ordered input; SolverDenseLU.update hands the matrix (or the block sliced by SystemOfEquations / StaticCondensation) straight in
-KNOWN_LU = ('SolverDenseLU.update', 'P L U = A for the matrix handed to scipy.linalg.lu', 'integer-typed dense matrix in Fortran memory order')
 
 
 def nl(idx):
@@ -151,9 +148,6 @@ def run(ctx):
 
     def impl_fail(call_site, pred, cls, case, expected=None, got=None, A=None, stor=None):
         reported.add(len(checks) - 1)
-        if A is not None and dkind(A) == 'int' and stor in DENSE and 'result type' not in pred:
-            ctx.violation('impl-violates', *KNOWN_LU, dict(case, observed_at=call_site, predicate=pred))
-            return
         ctx.violation('impl-violates', call_site, pred, cls, case, expected=expected, got=got)
 
     def cast(v, kind):
@@ -617,6 +611,18 @@ def run(ctx):
             Ai = A.astype(np.int64)
             for stor in ('dense', 'csc'):
                 soe_case(cls, Ai, name, corp['int_soe']['free'], corp['int_soe']['prescribed'], stor, 'vec', ('int', 'int'), 'both')
+        if corp and 'int_fortran' in corp:
+            # fix 635515f (F30): integer-typed matrix reaching SolverDenseLU in Fortran order (directly, or as the sliced free block)
+            Ai = A.astype(np.int64)
+            w = corp['int_fortran']
+            for bd in ('real', 'int'):
+                ls_run(cls, Ai, name, np.asfortranarray(Ai), 'dense_F', 'auto', lambda: {}, cast(lc.gen_rhs(rng, A.shape[0], 'vec', False), bd), 'vec')
+                ls_run(cls, Ai, name, np.asfortranarray(Ai), 'dense_F', 'SolverDenseLU', lambda: dict(solver=S.SolverDenseLU()),
+                       cast(lc.gen_rhs(rng, A.shape[0], 'blk', False), bd), 'blk')
+            for stor in DENSE:
+                sc_case(cls, Ai, name, w['main'], w['sc_free'], stor)
+                soe_case(cls, Ai, name, w['free'], w['prescribed'], stor, 'vec', ('real', 'real'), 'both')
+                soe_case(cls, Ai, name, w['free'], w['prescribed'], stor, 'blk', ('int', 'real'), 'both')
     # the 5 fixed matrices of corpus/C07/dtype_stress.json in every dtype they can be held in
     variants = []
     for (cls, A, name) in stress:
@@ -694,10 +700,6 @@ def run(ctx):
         if idx in reported:
             continue
         lab = labels[idx]
-        rp = lab[-1]
-        if rp.get('storage') in DENSE and str(rp.get('dtype') or rp.get('dtypes', {}).get('A')).startswith('int'):
-            ctx.violation('impl-violates', *KNOWN_LU, dict(rp, observed_at=f'{lab[0]} correspondence'))
-            continue
         ctx.violation('correspondence', f'{lab[0]}._response', 'outputs equal the exact model outputs (1e-9), satisfy the block equations and have the model dtype',
                       f'{lab[1]}', dict(label=[str(v) for v in lab[:-1]], replay=lab[-1]),
                       note='exact rational model output / model dtype (checked inside Coq) and implementation differ')
